@@ -280,6 +280,13 @@ func parseGen(g *G, tier string) []M {
 		budget = 250000
 	}
 	per := budget / len(bases)
+	// input that is not JSON goes to the line detector: text in front of the tag whose length changes
+	// under case mapping, bytes that are not text, a tag in other letter case
+	for i, txt := range []string{"ȺȺȺȺȺȺȺȺȺȺȺȺ SPDXVersion: SPDX-2.3\n", "ȺȾ SPDXVersion:", "\xff\xfe\xff\xfe\xff\xfe\xff\xfeSPDXVersion: SPDX-2.2\nDataLicense: CC0-1.0\n",
+		"İİİİİİİİİİ SPDXVersion: SPDX-2.3", "x\nẞẞẞẞ SPDXVERSION: spdx-2.2\n", "SPDXVersion: SPDX-2.3\nDocumentName: ȺȾİ\n"} {
+		in := parseInput([]byte(txt), fmt.Sprintf("text-%d", i), "none")
+		ops = append(ops, M{"op": "sniffPair", "in": in}, M{"op": "parse", "in": in})
+	}
 	for _, bs := range bases {
 		raw, src := []byte(bs[0]), bs[1]
 		ops = append(ops, M{"op": "parse", "in": parseInput(raw, src, "none")})
@@ -311,7 +318,10 @@ func parseGen(g *G, tier string) []M {
 			keep := all[:per]
 			if strings.HasPrefix(src, "rich-") {
 				for _, f := range all[per:] {
-					if len(f.p) == 1 {
+					// also kept: text of unusual shape wherever a date is expected (dates are converted,
+					// and what cannot be converted is reported)
+					ps := strings.ToLower(t.PathString(f.p))
+					if len(f.p) == 1 || ((f.k == "wide" || f.k == "freetext") && (strings.Contains(ps, "date") || strings.Contains(ps, "created") || strings.Contains(ps, "timestamp"))) {
 						keep = append(keep, f)
 					}
 				}
